@@ -130,9 +130,9 @@ def _sh_to_regex(tier):
             product_pins(n=[3], k=[1], m=[2], starts=[1, 3], finals=[4], perm=[0, 4], wlen=[2], t0=[0, 1]) + \
             product_pins(n=[3], k=[1], m=[3], starts=[1, 3], finals=[4], perm=[0, 4], wlen=[2], t0=[0], t1=[0, 1]) + \
             product_pins(n=[3], k=[1], m=[3], starts=[1, 3], finals=[4], perm=[0, 4], wlen=[2], t0=[1])
-    return product_pins(n=[2], k=[1, 2], m=[0, 1, 2, 3, 4], starts=[0, 1, 2, 3], finals=[0, 1, 2, 3], wlen=[2]) + \
-        product_pins(n=[3], k=[1, 2], m=[2, 3, 4], starts=[1, 3], finals=[4, 6], perm=[0, 4], wlen=[2],
-                     t0=[0, 1, 2])
+    return product_pins(n=[2], k=[1], m=[0, 1, 2, 3, 4], starts=[0, 1, 2, 3], finals=[0, 1, 2, 3], wlen=[2]) + \
+        product_pins(n=[2], k=[2], m=[1, 2, 3], starts=[0, 1, 2, 3], finals=[0, 1, 2, 3], wlen=[2]) + \
+        product_pins(n=[3], k=[1], m=[2, 3], starts=[1, 3], finals=[4, 6], perm=[0, 4], wlen=[2], t0=[0, 1, 2])
 
 
 def _sh_two_state(tier):
@@ -149,8 +149,7 @@ CONDS = [
          {"quick": "eps-NFA 2 states over {a}/{a,b} with 1-3 edges (eps, loops, parallel edges), starts {0}/{0,1}, "
                    "any non-empty final mask + 3 states over {a} with 2-3 edges, final {2}, 2 elimination orders; "
                    "regex compared exactly through its eps-NFA and on one symbolic word through accepts",
-          "thorough": "2 states: <=4 edges, all masks; 3 states: k<=2, 2-4 edges, 3 start masks, 3 final masks, "
-                      "3 elimination orders"},
+          "thorough": "2 states: <=4 edges over {a}, <=3 over {a,b}, all masks; 3 states over {a}: 2-3 edges, starts {0}/{0,1}, finals {2}/{1,2}, 2 elimination orders"},
          FUNCS, RULE),
     Cond("C06", c06_two_state, _sh_two_state,
          {"quick": "all two-state automata with each of the 4 edges in {absent, eps, a, b}, start 0, final 1 or 0 "
